@@ -562,6 +562,12 @@ func (o *operation) handle() {
 			// the corresponding header has to be compressed like any other message.
 			reqMsg.reset(o.bufferPool, true, o.client.reqCompression != nil)
 			reqMsg.markReady()
+			if o.clientEnveloper != nil && !o.clientReqNeedsPrep {
+				// An enveloped stream without a single message: there are no
+				// bytes to decode (zero bytes are not a JSON document, for
+				// one); the request line is built from the empty message.
+				reqMsg.stage = stageDecoded
+			}
 		case err != nil:
 			o.reportError(err)
 			return
